@@ -207,7 +207,54 @@ def _depth_pieces(pa: int, pb: int, pc: int, pd: int, sv: bool, iv: bool, wrap: 
     return result(ok, depth > 1)
 
 
+# ---- the rule used the way the documentation shows: as a validator of the public entry points, with the REQUEST's variables
+_ENTRY_SCHEMA = None
+
+
+def entry_schema():
+    global _ENTRY_SCHEMA
+    if _ENTRY_SCHEMA is None:
+        from py_gql import build_schema
+        _ENTRY_SCHEMA = build_schema("schema { query: T } type T { a: T b: T c: T d: T e: T z: T keep: Int }")
+    return _ENTRY_SCHEMA
+
+
+def _depth_entry(d1: int, dirkind: int, dirlevel: int, v: bool, limit: int, vm: int, req: bool, entry: int) -> bool:
+    """
+    pre: 1 <= d1 <= 3 and 1 <= dirkind <= 2 and 0 <= dirlevel <= d1 and -1 <= limit <= 4 and 0 <= vm <= 1 and 0 <= entry <= 1
+    pre: shard_of(d1 * 3 + dirkind)
+    post: _
+    """
+    from py_gql import graphql_blocking, process_graphql_query
+    D1, DK, DL = concrete_int(d1, 1, 3), concrete_int(dirkind, 1, 2), concrete_int(dirlevel, 0, 3)
+    LIM, VM, EN = concrete_int(limit, -1, 4), concrete_int(vm, 0, 1), concrete_int(entry, 0, 1)
+    V, REQ = (True if v else False), (True if req else False)
+    with untraced():
+        frags = []
+        sel = chain_text(D1, 0, 0, DK, DL, "a", frags, "x")
+        # how $v gets its value: 0 given in the request, 1 omitted (the declaration's default applies); req: the operation also declares a REQUIRED variable, supplied by the request
+        decl = ("$v: Boolean = %s" % ("true" if V else "false")) if VM == 1 else "$v: Boolean!"
+        if REQ:
+            decl += ", $id: Int!"
+        src = "query Q(%s) { %s keep%s }" % (decl, sel, " again: keep @skip(if: false)" if not REQ else " w: keep @include(if: true)")
+        variables = {} if VM == 1 else {"v": V}
+        if REQ:
+            variables["id"] = 7
+        exp_depth = max([d for d in [chain_depth(D1, DK, DL, V)] if d is not None] + [0])
+        kw = dict(variables=variables, validators=[MaxDepthValidationRule(LIM)], root={})
+        res = graphql_blocking(entry_schema(), src, **kw) if EN == 0 else process_graphql_query(entry_schema(), src, **kw)
+        flagged = any("exceeds maximum depth" in str(e) for e in (res.errors or []))
+        ok = flagged == (exp_depth > LIM) and (flagged or not res.errors)
+    return result(ok, exp_depth > LIM)
+
+
 CONDITIONS = [
+    Cond(
+        name="depth_entry", fn=_depth_entry, quick=60, thorough=120, per_path=30, shards_quick=8, shards_thorough=8,
+        bound="the rule passed as `validators=[...]` to graphql_blocking / process_graphql_query with the REQUEST's variables: chains of depth 1..3 with @skip / @include(if: $v) at any level, $v given in the request or left to the "
+              "declaration's default, the operation optionally declaring a further REQUIRED variable (supplied), every limit -1..4: the request is refused with the depth error exactly when the depth that the request's variables select exceeds the limit",
+        symbolic={"d1,dirkind,dirlevel,limit,vm,entry": "choice", "v,req": "data / choice"}, witness={"d1": 2, "dirkind": 1, "dirlevel": 1, "v": False, "limit": 1, "vm": 0, "req": True, "entry": 0},
+    ),
     Cond(
         name="depth_pieces", fn=_depth_pieces, quick=150, thorough=900, per_path=60, shards_quick=16, shards_thorough=16,
         bound="the executable documents of harness/docgen.py (ordered subsets of %d selection pieces: one field under several aliases with different sub-depths, a fragment spread several times at different levels and under @skip/@include, "
